@@ -328,6 +328,9 @@ class Interp:
                     return ov(self) if callable(ov) and not isinstance(ov, SpecFn) else ov
                 return self._module_constant(m, node, nm)
         if kind == "module":
+            xm = getattr(self.registry, "extra_modules", None)
+            if xm and mod.split(".")[0] in xm:
+                return xm[mod.split(".")[0]]
             if mod in self.modules:
                 return self.modules[mod]
             top = mod.split(".")[0]
@@ -1194,6 +1197,8 @@ class Interp:
         if contract is None and self.frames:
             # inlined callee: inherits inline permissions of the caller, no loop specs
             contract = self.frames[-1].contract.inline_view() if self.frames[-1].contract is not None else None
+        if contract is not None and not getattr(contract, "_is_inline_view", False) and "_old" not in env.vars:
+            env.vars["_old"] = self.bm.snapshot_env(self, env)  # old(...) in loop invariants = function entry
         fr = Frame(f, contract)
         fr.env = env
         self.frames.append(fr)
